@@ -104,3 +104,428 @@ Section Loops.
   Qed.
 End Loops.
 
+
+(* ---------------------------------------------------------------- per-operation refinement *)
+
+Lemma str_eqb_nonempty a k : k <> [] -> str_eqb a k = true -> nonempty a = true.
+Proof. intros Hk H. apply str_eqb_eq in H. subst a. apply nonempty_true. exact Hk. Qed.
+
+Lemma negb_true_false b : negb b = true -> b = false.
+Proof. destruct b; cbn; congruence. Qed.
+
+Lemma upsert_first_noex {A} (m : A -> bool) upd l : existsb m l = false -> upsert_first m upd l = l.
+Proof.
+  induction l as [|x r IH]; cbn; [reflexivity|].
+  destruct (m x); cbn; [discriminate|]. intros H. f_equal. exact (IH H).
+Qed.
+
+Lemma add_godebug_abs f key v f' :
+  key <> [] -> add_godebug f key v = Some f' -> abs f' = fst (kstep (AddGodebug key v) (abs f)).
+Proof.
+  intros Hk H. unfold add_godebug in H.
+  destruct (upsert_loop _ _ _ _ _ _ _ _ _) as [[[s l] need]|] eqn:Hu; [|discriminate].
+  apply (upsert_loop_abs (fun g => str_eqb (gd_key g) key) gd_syn zero_godebug
+            (fun g => nonempty (gd_key g)) (fun g => (gd_key g, gd_val g))
+            (fun g => str_eqb (fst g) key) eq_refl (fun e _ => eq_refl)
+            (fun g => mkGodebug (gd_key g) v (gd_syn g)) (fun g => (fst g, v))) in Hu;
+    [| intros e He; eapply str_eqb_nonempty; eauto | intros e He; exact He | reflexivity].
+  destruct Hu as [Hl Hn]. cbn in Hn. destruct need.
+  - destruct (add_line s None v_godebug _) as [s2 n]. injection H as <-.
+    unfold abs; cbn. rewrite filter_app, map_app, Hl. cbn.
+    assert (nonempty key = true) as -> by (apply nonempty_true; exact Hk). cbn.
+    unfold upsert. symmetry in Hn. apply negb_true_false in Hn. cbn in Hn. rewrite Hn.
+    unfold kset_godebug; cbn. rewrite (upsert_first_noex _ _ _ Hn). reflexivity.
+  - injection H as <-. unfold abs; cbn. rewrite Hl.
+    unfold upsert. destruct (existsb _ _) eqn:He; [reflexivity | discriminate].
+Qed.
+
+Lemma drop_godebug_abs f key f' :
+  drop_godebug f key = Some f' -> abs f' = fst (kstep (DropGodebug key) (abs f)).
+Proof.
+  intros H. unfold drop_godebug in H.
+  destruct (drop_loop _ _ _ _ _) as [[s l]|] eqn:Hd; [|discriminate].
+  injection H as <-.
+  apply (drop_loop_abs (fun g => str_eqb (gd_key g) key) gd_syn zero_godebug
+           (fun g => nonempty (gd_key g)) (fun g => (gd_key g, gd_val g))
+           (fun g => str_eqb (fst g) key) eq_refl (fun e _ => eq_refl)) in Hd.
+  unfold abs; cbn. rewrite Hd. reflexivity.
+Qed.
+
+Lemma add_new_require_abs f p v ind :
+  p <> [] -> abs (add_new_require f p v ind) = fst (kstep (AddNewRequire p v ind) (abs f)).
+Proof.
+  intros Hp. unfold add_new_require. destruct (add_line _ _ _ _) as [s1 n].
+  unfold abs; cbn. rewrite filter_app, map_app. cbn.
+  assert (nonempty p = true) as -> by (apply nonempty_true; exact Hp). reflexivity.
+Qed.
+
+Lemma add_require_abs f p v f' :
+  p <> [] -> add_require f p v = Some f' -> abs f' = fst (kstep (AddRequire p v) (abs f)).
+Proof.
+  intros Hk H. unfold add_require in H.
+  destruct (upsert_loop _ _ _ _ _ _ _ _ _) as [[[s l] need]|] eqn:Hu; [|discriminate].
+  apply (upsert_loop_abs (fun r => str_eqb (rq_path r) p) rq_syn zero_require
+            (fun r => nonempty (rq_path r)) (fun r => (rq_path r, rq_vers r, rq_ind r))
+            (fun q => str_eqb (req_path q) p) eq_refl (fun e _ => eq_refl)
+            (fun r => mkRequire (rq_path r) v (rq_ind r) (rq_syn r))
+            (fun q => (req_path q, v, snd q))) in Hu;
+    [| intros e He; eapply str_eqb_nonempty; eauto | intros e He; exact He | reflexivity].
+  destruct Hu as [Hl Hn]. cbn in Hn. destruct need.
+  - injection H as <-. rewrite add_new_require_abs by exact Hk.
+    unfold abs; cbn. rewrite Hl.
+    unfold upsert. symmetry in Hn. apply negb_true_false in Hn. cbn in Hn. rewrite Hn.
+    unfold kset_require; cbn. rewrite (upsert_first_noex _ _ _ Hn). reflexivity.
+  - injection H as <-. unfold abs; cbn. rewrite Hl.
+    unfold upsert. destruct (existsb _ _) eqn:He; [reflexivity | discriminate].
+Qed.
+
+Lemma drop_require_abs f p f' :
+  drop_require f p = Some f' -> abs f' = fst (kstep (DropRequire p) (abs f)).
+Proof.
+  intros H. unfold drop_require in H.
+  destruct (drop_loop _ _ _ _ _) as [[s l]|] eqn:Hd; [|discriminate].
+  injection H as <-.
+  apply (drop_loop_abs (fun r => str_eqb (rq_path r) p) rq_syn zero_require
+           (fun r => nonempty (rq_path r)) (fun r => (rq_path r, rq_vers r, rq_ind r))
+           (fun q => str_eqb (req_path q) p) eq_refl (fun e _ => eq_refl)) in Hd.
+  unfold abs; cbn. rewrite Hd. reflexivity.
+Qed.
+
+Lemma str_eqb_sym a b : str_eqb a b = str_eqb b a.
+Proof.
+  destruct (str_eqb_spec a b) as [->|Hn]; [symmetry; apply str_eqb_refl|].
+  destruct (str_eqb_spec b a) as [->|_]; congruence.
+Qed.
+
+Lemma drop_exclude_abs f p v f' :
+  drop_exclude f p v = Some f' -> abs f' = fst (kstep (DropExclude p v) (abs f)).
+Proof.
+  intros H. unfold drop_exclude in H.
+  destruct (drop_loop _ _ _ _ _) as [[s l]|] eqn:Hd; [|discriminate].
+  injection H as <-.
+  apply (drop_loop_abs (fun x => str_eqb (ex_path x) p && str_eqb (ex_vers x) v) ex_syn zero_exclude
+           (fun x => nonempty (ex_path x)) (fun x => (ex_path x, ex_vers x))
+           (pair_eqb (p, v)) eq_refl) in Hd.
+  - unfold abs; cbn. rewrite Hd. reflexivity.
+  - intros e _. unfold pair_eqb; cbn. rewrite (str_eqb_sym p), (str_eqb_sym v). reflexivity.
+Qed.
+
+Lemma exclude_scan_abs (p v : str) l h :
+  p <> [] ->
+  (exclude_scan p v l h = None <->
+   existsb (pair_eqb (p, v)) (map (fun x => (ex_path x, ex_vers x)) (filter (fun x => nonempty (ex_path x)) l)) = true).
+Proof.
+  intros Hp. revert h. induction l as [|x r IH]; intros h; cbn.
+  - split; discriminate.
+  - destruct (str_eqb (ex_path x) p) eqn:E1; cbn.
+    + assert (nonempty (ex_path x) = true) as -> by (eapply str_eqb_nonempty; eauto). cbn.
+      unfold pair_eqb at 1; cbn. rewrite (str_eqb_sym p), E1. cbn.
+      rewrite (str_eqb_sym v). destruct (str_eqb (ex_vers x) v); cbn; [tauto|]. apply IH.
+    + destruct (nonempty (ex_path x)); cbn; [|apply IH].
+      unfold pair_eqb at 1; cbn. rewrite (str_eqb_sym p), E1. cbn. apply IH.
+Qed.
+
+Lemma add_exclude_abs f (p v : str) :
+  p <> [] ->
+  match add_exclude f p v with
+  | ROk f' => kstep (AddExclude p v) (abs f) = (abs f', false)
+  | RErr f' => f' = f /\ snd (kstep (AddExclude p v) (abs f)) = true
+  | RPanic => False
+  end.
+Proof.
+  intros Hp. pose proof (exclude_scan_abs p v (f_exclude f) None Hp) as Hsc.
+  unfold add_exclude. cbn [kstep].
+  destruct (check_canonical_version p v); cbn; [|split; reflexivity].
+  destruct (exclude_scan p v (f_exclude f) None) as [h|] eqn:Hs.
+  - destruct (add_line _ _ _ _) as [s n].
+    unfold abs; cbn.
+    destruct (existsb (pair_eqb (p, v)) _) eqn:He.
+    + destruct Hsc as [_ Hx]. specialize (Hx eq_refl). discriminate.
+    + rewrite filter_app, map_app. cbn.
+      assert (nonempty p = true) as -> by (apply nonempty_true; exact Hp).
+      reflexivity.
+  - destruct Hsc as [Hsc _]. specialize (Hsc eq_refl). unfold abs; cbn. rewrite Hsc. reflexivity.
+Qed.
+
+(* replace *)
+Definition rep_match (op ov : str) (r : str * str * str * str) : bool :=
+  match r with (o', v', _, _) => str_eqb o' op && (nilb ov || str_eqb v' ov) end.
+
+Lemma add_replace_loop_abs (op ov np nv : str) need h s l s' l' need' h' :
+  op <> [] ->
+  add_replace_loop op ov np nv need h s l = Some (s', l', need', h') ->
+  map (fun r => (rp_op r, rp_ov r, rp_np r, rp_nv r)) (filter (fun r => nonempty (rp_op r)) l') =
+    (if need then upsert_first (rep_match op ov) (fun _ => (op, ov, np, nv))
+                    (map (fun r => (rp_op r, rp_ov r, rp_np r, rp_nv r)) (filter (fun r => nonempty (rp_op r)) l))
+     else drop (rep_match op ov)
+                    (map (fun r => (rp_op r, rp_ov r, rp_np r, rp_nv r)) (filter (fun r => nonempty (rp_op r)) l)))
+  /\ need' = (need && negb (existsb (rep_match op ov)
+               (map (fun r => (rp_op r, rp_ov r, rp_np r, rp_nv r)) (filter (fun r => nonempty (rp_op r)) l))))%bool.
+Proof.
+  intros Hop. assert (Hne : nonempty op = true) by (apply nonempty_true; exact Hop).
+  unfold drop. revert need h s s' l' need' h'.
+  induction l as [|r rest IH]; intros need h s s' l' need' h' H; cbn in H.
+  - injection H as _ <- <- _. cbn. destruct need; split; reflexivity.
+  - destruct (str_eqb (rp_op r) op && (nilb ov || str_eqb (rp_ov r) ov))%bool eqn:Hm.
+    + assert (Hl : nonempty (rp_op r) = true).
+      { apply Bool.andb_true_iff in Hm. destruct Hm as [Hm _]. eapply str_eqb_nonempty; eauto. }
+      destruct (rp_syn r) as [i|]; [|discriminate].
+      destruct need.
+      * destruct (add_replace_loop op ov np nv false h _ rest) as [[[[s1 l1] n1] h1]|] eqn:Hr; [|discriminate].
+        injection H as _ <- <- _. destruct (IH _ _ _ _ _ _ _ Hr) as [IH1 IH2].
+        cbn. rewrite Hl, Hne. cbn. rewrite Hm. cbn. rewrite IH1. split; [reflexivity | exact IH2].
+      * destruct (add_replace_loop op ov np nv false _ _ rest) as [[[[s1 l1] n1] h1]|] eqn:Hr; [|discriminate].
+        injection H as _ <- <- _. destruct (IH _ _ _ _ _ _ _ Hr) as [IH1 IH2].
+        cbn. rewrite Hl. cbn. rewrite Hm. cbn. split; [exact IH1 | exact IH2].
+    + destruct (add_replace_loop op ov np nv need _ s rest) as [[[[s1 l1] n1] h1]|] eqn:Hr; [|discriminate].
+      injection H as _ <- <- _. destruct (IH _ _ _ _ _ _ _ Hr) as [IH1 IH2].
+      cbn. destruct (nonempty (rp_op r)) eqn:Hl.
+      * cbn. rewrite Hm. cbn. destruct need; rewrite IH1; (split; [reflexivity | exact IH2]).
+      * split; [exact IH1 | exact IH2].
+Qed.
+
+Lemma add_replace_abs f (op ov np nv : str) f' :
+  op <> [] -> add_replace f op ov np nv = Some f' ->
+  abs f' = fst (kstep (AddReplace op ov np nv) (abs f)).
+Proof.
+  intros Hk H. unfold add_replace in H.
+  destruct (add_replace_loop _ _ _ _ _ _ _ _) as [[[[s l] need] h]|] eqn:Hu; [|discriminate].
+  apply add_replace_loop_abs in Hu; [|exact Hk].
+  destruct Hu as [Hl Hn]. cbn in Hn. destruct need.
+  - destruct (add_line s _ v_replace _) as [s2 n]. injection H as <-.
+    unfold abs; cbn. rewrite filter_app, map_app, Hl. cbn.
+    assert (nonempty op = true) as -> by (apply nonempty_true; exact Hk). cbn.
+    unfold upsert. symmetry in Hn. apply negb_true_false in Hn.
+    fold (rep_match op ov). rewrite Hn.
+    unfold kset_replace; cbn. rewrite (upsert_first_noex _ _ _ Hn). reflexivity.
+  - injection H as <-. unfold abs; cbn. rewrite Hl.
+    unfold upsert. fold (rep_match op ov). destruct (existsb _ _) eqn:He; [reflexivity | discriminate].
+Qed.
+
+Lemma drop_replace_abs f (op ov : str) f' :
+  drop_replace f op ov = Some f' -> abs f' = fst (kstep (DropReplace op ov) (abs f)).
+Proof.
+  intros H. unfold drop_replace in H.
+  destruct (drop_loop _ _ _ _ _) as [[s l]|] eqn:Hd; [|discriminate].
+  injection H as <-.
+  apply (drop_loop_abs (fun r => str_eqb (rp_op r) op && str_eqb (rp_ov r) ov) rp_syn zero_replace
+           (fun r => nonempty (rp_op r)) (fun r => (rp_op r, rp_ov r, rp_np r, rp_nv r))
+           (fun r => rep_old_eqb r (op, ov, [], [])) eq_refl (fun e _ => eq_refl)) in Hd.
+  unfold abs; cbn. rewrite Hd. reflexivity.
+Qed.
+
+(* retract *)
+Lemma add_retract_abs f (lo hi rat : str) :
+  match add_retract f lo hi rat with
+  | ROk f' => kstep (AddRetract lo hi rat) (abs f) = (abs f', false)
+  | RErr f' => f' = f /\ snd (kstep (AddRetract lo hi rat) (abs f)) = true
+  | RPanic => False
+  end.
+Proof.
+  unfold add_retract. cbn [kstep].
+  assert (Hp : match k_module (abs f) with Some p => p | None => [] end
+               = match f_module f with Some m => mo_path m | None => [] end).
+  { unfold abs; cbn. destruct (f_module f); reflexivity. }
+  rewrite Hp. clear Hp.
+  destruct (check_canonical_version _ hi) eqn:Hhi; cbn; [|split; reflexivity].
+  destruct (check_canonical_version _ lo) eqn:Hlo; cbn; [|split; reflexivity].
+  destruct (add_line _ _ _ _) as [s n].
+  unfold abs; cbn. rewrite filter_app, map_app. cbn.
+  assert (nonempty lo || nonempty hi = true)%bool as ->.
+  { unfold check_canonical_version in Hhi. destruct hi; [discriminate|]. cbn. apply Bool.orb_true_r. }
+  reflexivity.
+Qed.
+
+Lemma drop_retract_abs f (lo hi : str) f' :
+  drop_retract f lo hi = Some f' -> abs f' = fst (kstep (DropRetract lo hi) (abs f)).
+Proof.
+  intros H. unfold drop_retract in H.
+  destruct (drop_loop _ _ _ _ _) as [[s l]|] eqn:Hd; [|discriminate].
+  injection H as <-.
+  apply (drop_loop_abs (fun r => str_eqb (rt_lo r) lo && str_eqb (rt_hi r) hi) rt_syn zero_retract
+           (fun r => nonempty (rt_lo r) || nonempty (rt_hi r)) (fun r => (rt_lo r, rt_hi r, rt_rat r))
+           (fun r => match r with (l, h, _) => str_eqb l lo && str_eqb h hi end) eq_refl (fun e _ => eq_refl)) in Hd.
+  unfold abs; cbn. rewrite Hd. reflexivity.
+Qed.
+
+Lemma drop_tool_abs f (p : str) f' :
+  drop_tool f p = Some f' -> abs f' = fst (kstep (DropTool p) (abs f)).
+Proof.
+  intros H. unfold drop_tool in H.
+  destruct (drop_loop _ _ _ _ _) as [[s l]|] eqn:Hd; [|discriminate].
+  injection H as <-.
+  apply (drop_loop_abs (fun t => str_eqb (tl_path t) p) tl_syn zero_tool
+           (fun t => nonempty (tl_path t)) tl_path (str_eqb p) eq_refl) in Hd.
+  - unfold abs; cbn. rewrite Hd. reflexivity.
+  - intros e _. apply str_eqb_sym.
+Qed.
+
+(* use *)
+Lemma add_new_use_abs f (p m : str) :
+  p <> [] -> abs (add_new_use f p m) = fst (kstep (WAddNewUse p m) (abs f)).
+Proof.
+  intros Hp. unfold add_new_use. destruct (add_line _ _ _ _) as [s1 n].
+  unfold abs; cbn. rewrite filter_app, map_app. cbn.
+  assert (nonempty p = true) as -> by (apply nonempty_true; exact Hp). reflexivity.
+Qed.
+
+Lemma add_use_abs f (p m : str) f' :
+  p <> [] -> add_use f p m = Some f' -> abs f' = fst (kstep (WAddUse p m) (abs f)).
+Proof.
+  intros Hk H. unfold add_use in H.
+  destruct (upsert_loop _ _ _ _ _ _ _ _ _) as [[[s l] need]|] eqn:Hu; [|discriminate].
+  apply (upsert_loop_abs (fun u => str_eqb (us_path u) p) us_syn zero_use
+            (fun u => nonempty (us_path u)) (fun u => (us_path u, us_mod u))
+            (fun u => str_eqb (fst u) p) eq_refl (fun e _ => eq_refl)
+            (fun u => mkUse (us_path u) m (us_syn u))
+            (fun u => (fst u, m))) in Hu;
+    [| intros e He; eapply str_eqb_nonempty; eauto | intros e He; exact He | reflexivity].
+  destruct Hu as [Hl Hn]. cbn in Hn. destruct need.
+  - injection H as <-. rewrite add_new_use_abs by exact Hk.
+    unfold abs; cbn. rewrite Hl.
+    unfold upsert. symmetry in Hn. apply negb_true_false in Hn. cbn in Hn. rewrite Hn.
+    unfold kset_use; cbn. rewrite (upsert_first_noex _ _ _ Hn). reflexivity.
+  - injection H as <-. unfold abs; cbn. rewrite Hl.
+    unfold upsert. destruct (existsb _ _) eqn:He; [reflexivity | discriminate].
+Qed.
+
+Lemma drop_use_abs f (p : str) f' :
+  drop_use f p = Some f' -> abs f' = fst (kstep (WDropUse p) (abs f)).
+Proof.
+  intros H. unfold drop_use in H.
+  destruct (drop_loop _ _ _ _ _) as [[s l]|] eqn:Hd; [|discriminate].
+  injection H as <-.
+  apply (drop_loop_abs (fun u => str_eqb (us_path u) p) us_syn zero_use
+           (fun u => nonempty (us_path u)) (fun u => (us_path u, us_mod u))
+           (fun u => str_eqb (fst u) p) eq_refl (fun e _ => eq_refl)) in Hd.
+  unfold abs; cbn. rewrite Hd. reflexivity.
+Qed.
+
+(* cleanup *)
+Lemma filter_idem {A} (p : A -> bool) l : filter p (filter p l) = filter p l.
+Proof.
+  induction l as [|x r IH]; cbn; [reflexivity|].
+  destruct (p x) eqn:E; cbn; rewrite ?E, IH; reflexivity.
+Qed.
+
+Lemma cleanup_abs f : abs (cleanup f) = abs f.
+Proof. unfold abs, cleanup; cbn. rewrite !filter_idem. reflexivity. Qed.
+
+Lemma w_cleanup_abs f : abs (w_cleanup f) = abs f.
+Proof. unfold abs, w_cleanup; cbn. rewrite !filter_idem. reflexivity. Qed.
+
+(* module / go / toolchain / comment *)
+Lemma add_module_stmt_abs f (p : str) f' :
+  add_module_stmt f p = Some f' -> abs f' = fst (kstep (AddModuleStmt p) (abs f)).
+Proof.
+  unfold add_module_stmt. destruct (f_module f) as [m|] eqn:Hm.
+  - destruct (mo_syn m); [|discriminate]. intros [= <-]. unfold abs; cbn. reflexivity.
+  - destruct (add_line _ _ _ _) as [s n]. intros [= <-]. unfold abs; cbn. reflexivity.
+Qed.
+
+Definition res_refines (o : op) (f : file) (r : res) : Prop :=
+  match r with
+  | ROk f' => kstep o (abs f) = (abs f', false)
+  | RErr f' => f' = f /\ snd (kstep o (abs f)) = true
+  | RPanic => True
+  end.
+
+Lemma add_go_stmt_abs f (v : str) : res_refines (AddGoStmt v) f (add_go_stmt f v).
+Proof.
+  unfold res_refines, add_go_stmt. cbn [kstep]. destruct (go_version_ok v); cbn; [|split; reflexivity].
+  destruct (f_go f) as [g|].
+  - destruct (go_syn g); [|exact I]. unfold abs; cbn. reflexivity.
+  - destruct (add_line _ _ _ _) as [s n]. unfold abs; cbn. reflexivity.
+Qed.
+
+Lemma w_add_go_stmt_abs f (v : str) : res_refines (WAddGoStmt v) f (w_add_go_stmt f v).
+Proof.
+  unfold res_refines, w_add_go_stmt. cbn [kstep]. destruct (go_version_ok v); cbn; [|split; reflexivity].
+  destruct (f_go f) as [g|].
+  - destruct (go_syn g); [|exact I]. unfold abs; cbn. reflexivity.
+  - unfold abs; cbn. reflexivity.
+Qed.
+
+Lemma drop_go_stmt_abs o f : o = DropGoStmt \/ o = WDropGoStmt -> res_refines o f (drop_go_stmt f).
+Proof.
+  intros [-> | ->]; unfold res_refines, drop_go_stmt; cbn [kstep];
+    (destruct (f_go f) as [g|] eqn:Hg; [destruct (go_syn g); [|exact I] |]; unfold abs; cbn; rewrite ?Hg; reflexivity).
+Qed.
+
+Lemma add_toolchain_stmt_abs f (v : str) : res_refines (AddToolchainStmt v) f (add_toolchain_stmt f v).
+Proof.
+  unfold res_refines, add_toolchain_stmt. cbn [kstep]. destruct (toolchain_ok v); cbn; [|split; reflexivity].
+  destruct (f_toolchain f) as [g|].
+  - destruct (go_syn g); [|exact I]. unfold abs; cbn. reflexivity.
+  - destruct (add_line _ _ _ _) as [s n]. unfold abs; cbn. reflexivity.
+Qed.
+
+Lemma w_add_toolchain_stmt_abs f (v : str) : res_refines (WAddToolchainStmt v) f (w_add_toolchain_stmt f v).
+Proof.
+  unfold res_refines, w_add_toolchain_stmt. cbn [kstep]. destruct (toolchain_ok v); cbn; [|split; reflexivity].
+  destruct (f_toolchain f) as [g|].
+  - destruct (go_syn g); [|exact I]. unfold abs; cbn. reflexivity.
+  - unfold abs; cbn. reflexivity.
+Qed.
+
+Lemma drop_toolchain_stmt_abs o f :
+  o = DropToolchainStmt \/ o = WDropToolchainStmt -> res_refines o f (drop_toolchain_stmt f).
+Proof.
+  intros [-> | ->]; unfold res_refines, drop_toolchain_stmt; cbn [kstep];
+    (destruct (f_toolchain f) as [g|] eqn:Hg; [destruct (go_syn g); [|exact I] |]; unfold abs; cbn; rewrite ?Hg; reflexivity).
+Qed.
+
+Lemma lift_refines o f r :
+  snd (kstep o (abs f)) = false ->
+  (forall f', r = Some f' -> abs f' = fst (kstep o (abs f))) ->
+  res_refines o f (lift r).
+Proof.
+  intros Hs H. destruct r as [f'|]; cbn; [|exact I].
+  rewrite (H f' eq_refl). destruct (kstep o (abs f)) as [k e]. cbn in *. subst e. reflexivity.
+Qed.
+
+Definition simple_op (o : op) : bool :=
+  match o with
+  | SetRequire _ | SetRequireSeparateIndirect _ | AddTool _ | SortBlocks | WSetUse _ | WSortBlocks => false
+  | _ => true
+  end.
+
+Theorem apply_refines_simple o f :
+  simple_op o = true -> valid_args o = true -> res_refines o f (apply o f).
+Proof.
+  intros Hs Hv. destruct o; try discriminate Hs; cbn [apply]; cbn in Hv;
+    try (apply lift_refines; [reflexivity|]).
+  - intros f'. apply add_module_stmt_abs.
+  - apply add_go_stmt_abs.
+  - apply drop_go_stmt_abs; auto.
+  - apply add_toolchain_stmt_abs.
+  - apply drop_toolchain_stmt_abs; auto.
+  - intros f'. apply add_godebug_abs. apply nonempty_true; exact Hv.
+  - intros f'. apply drop_godebug_abs.
+  - intros f'. apply add_require_abs. apply nonempty_true; exact Hv.
+  - cbn. rewrite add_new_require_abs by (apply nonempty_true; exact Hv). reflexivity.
+  - intros f'. apply drop_require_abs.
+  - pose proof (add_exclude_abs f path vers) as H. apply nonempty_true in Hv. specialize (H Hv).
+    unfold res_refines. destruct (add_exclude f path vers); tauto.
+  - intros f'. apply drop_exclude_abs.
+  - intros f'. apply add_replace_abs. apply nonempty_true; exact Hv.
+  - intros f'. apply drop_replace_abs.
+  - pose proof (add_retract_abs f lo hi rationale) as H.
+    unfold res_refines. destruct (add_retract f lo hi rationale); tauto.
+  - intros f'. apply drop_retract_abs.
+  - intros f'. apply drop_tool_abs.
+  - cbn. unfold add_comment, abs; cbn. reflexivity.
+  - cbn. rewrite cleanup_abs. reflexivity.
+  - apply w_add_go_stmt_abs.
+  - apply drop_go_stmt_abs; auto.
+  - apply w_add_toolchain_stmt_abs.
+  - apply drop_toolchain_stmt_abs; auto.
+  - intros f'. apply add_godebug_abs. apply nonempty_true; exact Hv.
+  - intros f'. apply drop_godebug_abs.
+  - intros f'. apply add_use_abs. apply nonempty_true; exact Hv.
+  - cbn. rewrite add_new_use_abs by (apply nonempty_true; exact Hv). reflexivity.
+  - intros f'. apply drop_use_abs.
+  - intros f'. apply add_replace_abs. apply nonempty_true; exact Hv.
+  - intros f'. apply drop_replace_abs.
+  - cbn. rewrite w_cleanup_abs. reflexivity.
+Qed.
